@@ -198,12 +198,26 @@ def reveal_by_step(spec, on):
   return spec
 
 
+def hide_br_by_step(spec, on):
+  """a line break that a timed set step takes away (tts:display="none" on the br) and gives back"""
+  if not on or spec["body"] is None:
+    return spec
+  brs = [n for n in gen_model.walk(spec["body"]) if n["kind"] == "br"]
+  if not brs:
+    return spec
+  n = brs[on % len(brs)]
+  b = gen_model.TIMES[(on + 3) % len(gen_model.TIMES)]
+  n["anims"] = [("Display", b, b + Fraction(1 + on % 2, 3), _styles.DisplayType.none)]
+  return spec
+
+
 def cases(prof):
   def strat(tier):
     # one document in four carries value-equal animation steps on two siblings (gen_model.equal_steps_on_siblings), one in five an
     # element that is displayed only while a set step reveals it
-    return st.builds(lambda spec, extra, eq, rv: {"spec": reveal_by_step(gen_model.equal_steps_on_siblings(spec, _styles.NamedColors.red.value, False)
-                                                                         if eq else spec, rv), "extra": extra}, gen_model.docspecs(prof),
+    return st.builds(lambda spec, extra, eq, rv: {"spec": hide_br_by_step(reveal_by_step(
+      gen_model.equal_steps_on_siblings(spec, _styles.NamedColors.red.value, False) if eq else spec, rv), rv % 3), "extra": extra},
+                     gen_model.docspecs(prof),
                      st.lists(st.fractions(0, 12, max_denominator=997), max_size=2), st.sampled_from([False, False, False, True]),
                      st.sampled_from([0, 0, 0, 0, 1, 2, 3, 5, 7, 11]))
   return strat
